@@ -15,6 +15,8 @@ CLAIMS = {
          "Sampling: committees/keys/messages drawn along histories, not enumerated (a single wrong Lagrange-table entry is found only if a committee using it is drawn). Group and member public keys are taken from chain state (their correctness is C04)."),
  "C05": ("§5/C05", "FIFO queue model per member fed by accepted MsgSubmitDEs/MsgResetDE; every assignment announced by an ordered request_signature event must pop the model queue head, never a consumed or reset pair; persisted attempts cross-checked against events; on-chain queues equal model queues after every block; over-limit submissions predicted.",
          "Sampling. Assignment order inside a block is taken from the ordered event stream and cross-checked against the persisted attempts. Signing creations that fail after a dequeue are provoked by multi-message transactions and tight gas."),
+ "C09": ("§5/C09", "Rolling seed recomputed independently from the block hashes the conductor produced; for every accepted data request the committee is recomputed with an own NIST SP 800-90A HMAC-DRBG and an own implementation of the sampling specification over the model's eligible set (bonded, oracle-active, power-index order) and compared with the stored request (order included); for every signing attempt the eligible list (active, queued nonce in the model, id order) and partial Fisher-Yates are recomputed and compared; too-few-eligible must be rejected. Plus a differential run of the real sampler on tiny boundary-hitting weights per block.",
+         "Sampling over (seed, id, weights) produced by histories; totals near 2^64 not reachable through bonded stake. Requests in a block after a staking transaction are skipped (power index may have moved)."),
  "C10": ("§5/C10", "Per-attempt model: stored expiry = creation + period in force; time-out never early, exactly on time while the parameter is unchanged; SUCCESS in the block of the last share; retry iff attempts left and enough available members (model availability at that point of the end block) else FALLEN; penalised set = idle assigned members active in the owning module; status/attempt monotone; one outcome event; interim data removed; drain-phase liveness.",
          "Sampling. Ordering of end-block decisions is read from the ordered event stream; availability and activity flags are model state (queues, flags) updated from inputs and events. Penalty-set equality is skipped in blocks where the module's member list itself changed (transition)."),
 }
